@@ -9,7 +9,9 @@ TRAIT_PATH = {"Debug": "Debug", "Clone": "Clone", "Copy": "Copy", "PartialEq": "
 def make(rng, i, force_trait=None):
     """Returns (source, meta) — meta describes what was generated (for the evidence)."""
     trait0 = force_trait or rng.choice(["Debug", "Clone", "PartialEq", "Hash", "Ord", "PartialOrd", "Default", "Copy", "Eq", "Clone+Copy", "PartialEq+Eq",
-                                        "Ord+PartialOrd", "Into", "Deref", "Deref+DerefMut"])
+                                        "Ord+PartialOrd", "Into", "Deref", "Deref+DerefMut",
+                                        # a trait next to an educed supertrait that has a handler (and bounds) of its own
+                                        "PartialOrd+PartialEq"])
     lifetimes = rng.choice([[], [], ["'a"], ["'a", "'b: 'a"]])
     n_ty = rng.randint(1, 3)
     if trait0.startswith("Deref"):
